@@ -160,6 +160,10 @@ fn main() {
     cell!(MovingAverageConvergenceDivergenceOutput, "Into<(f64,f64,f64)>", Into<(f64, f64, f64)>);
     cell!(PercentagePriceOscillatorOutput, "Into<(f64,f64,f64)>", Into<(f64, f64, f64)>);
     cell!(ChandelierExitOutput, "Into<(f64,f64)>", Into<(f64, f64)>);
+    // the conversions are documented as From impls on the tuple side (Into follows from From, not vice versa)
+    println!("cell (f64,f64,f64) | From<MovingAverageConvergenceDivergenceOutput> | {}", impls!((f64, f64, f64): From<MovingAverageConvergenceDivergenceOutput>));
+    println!("cell (f64,f64,f64) | From<PercentagePriceOscillatorOutput> | {}", impls!((f64, f64, f64): From<PercentagePriceOscillatorOutput>));
+    println!("cell (f64,f64) | From<ChandelierExitOutput> | {}", impls!((f64, f64): From<ChandelierExitOutput>));
 
     // error type
     cell!(TaError, "std::error::Error", std::error::Error);
